@@ -26,3 +26,9 @@ CHECK = e1(
     note="Trusted: net/url (Parse, String, Userinfo) as the reference semantics.  A typed-nil *url.Error is not passed "
          "to RedactUserinfoInURLError (the statement speaks of an error that carries a URL text).",
     design="DESIGN.md 2.1, 3 (C16)")
+
+CHECK["stages"] = CHECK["stages"] + [{"name": "race", "pkg": "./checks/c16/race", "race": True}]
+CHECK["assumptions"] = CHECK["assumptions"] + [
+    "stage race: redactors and readers share one *url.URL under the Go race detector (free-running; decides whether "
+    "the functions write to their input at all, which is schedule-independent for the happens-before detector)",
+]
